@@ -1763,16 +1763,57 @@ class SigBuilder:
         self.tu = tu
         self.memo = {}
         self.raw_types = {}     # type name -> (width, loc) of every raw object image
+        self.other = None       # SigBuilder over the other parsed unit (definitions of operators that are not inline)
+        self.proxies = {}
         self.stream_queries = set()
 
     def is_stream_op(self, n):
         return n.get('kind') == 'CXXOperatorCallExpr' and self.tu.sd(n).get('q') in (NET + 'operator<<', NET + 'operator>>')
+
+    def resolve(self, call):
+        """function entry of the operator / helper a call selects.  A function that is only declared in this unit and defined
+        in the other parsed unit of the property (an operator that is not inline) gets an entry of its own here -- identity,
+        parameters and location of the declaration -- whose signature is computed from the definition over there"""
+        tu = self.tu
+        f = tu.callee_fn(call)
+        if f is not None or getattr(self, 'other', None) is None:
+            return f
+        sd = tu.sd(call)
+        d, q, fty = sd.get('def') or sd.get('d'), sd.get('q'), sd.get('fty')
+        if not d or not q or not fty:
+            return None
+        if d in self.proxies:
+            return self.proxies[d]
+        defs = [g for g in self.other.tu.functions.values() if g['q'] == q and g.get('fty') == fty and not g.get('dep')
+                and g.get('body') and self.other.tu.body(g) is not None and not g.get('rec')]
+        decl = tu.node(d)
+        if len(defs) != 1 or decl is None:
+            return None
+        parms = [c for c in decl.get('inner', ()) if isinstance(c, dict) and c.get('kind') == 'ParmVarDecl']
+        if len(parms) != len(defs[0].get('params', [])):
+            return None
+        dsd = tu.sd(d) if tu.sd(d) and 'f' in tu.sd(d) else sd
+        if dsd is sd and isinstance(decl.get('loc', {}).get('line'), int):
+            # the declaration sits next to the other overloads of the same name: their file, the declaration's own line
+            from collections import Counter
+            fs_ = Counter(g['f'] for g in tu.functions.values() if g['q'] == q and not g.get('rec'))
+            if fs_:
+                dsd = {'f': fs_.most_common(1)[0][0], 'l': decl['loc']['line']}
+        self.proxies[d] = {'id': d, 'q': q, 'fty': fty, 'f': dsd['f'], 'l': dsd['l'], 'dep': False, 'body': None,
+                           'foreign': defs[0],
+                           'params': [{'id': c['id'], 'name': c.get('name', ''), 'ct': p2['ct']}
+                                      for c, p2 in zip(parms, defs[0]['params'])]}
+        return self.proxies[d]
 
     def sig(self, f):
         if f['id'] in self.memo:
             r = self.memo[f['id']]
             if r is None:
                 raise Undecided('recursive stream operator')
+            return r
+        if f.get('foreign') is not None:
+            r = self.other.sig(f['foreign'])
+            self.memo[f['id']] = r
             return r
         self.memo[f['id']] = None
         tu = self.tu
@@ -1965,7 +2006,8 @@ class SigBuilder:
         args = tu.call_parts(n)[2]
         env2 = {'stream': None, 'rh': None, 'rh_ct': '', 'dir': env['dir'], 'vars': {}, 'elems': {}, 'ptype': env['ptype'],
                 'fn': callee, 'helper': True, 'retval': None, 'depth': env.get('depth', 0) + 1, 'locals': {},
-                'iterpos': {}}
+                'iterpos': {}, 'ptrs': {}}
+        env2['rh_ct'] = env.get('rh_ct', '')          # the path ('rh',) means the same object in the helper
         pre = []
         for p, a in zip(callee.get('params', []), args):
             if self.is_stream(a, env):
@@ -1981,6 +2023,10 @@ class SigBuilder:
                 continue
             v = self.length(a, env, pre)
             if v is None:
+                pv = self.ptr_of(a, env)
+                if pv is not None and pv[0] == 'data':
+                    env2['ptrs'][p['id']] = pv          # a pointer to the elements of (part of) the streamed value
+                    continue
                 raise Undecided('argument `%s` of helper %s has no normal form' % (tu.show(a), callee['q']))
             env2['vars'][p['id']] = v
         items = pre + self.block(tu.body(callee), env2)
@@ -2085,6 +2131,8 @@ class SigBuilder:
                     return ('data', p, pt)
             return None
         if k == 'DeclRefExpr':
+            if e.get('referencedDecl', {}).get('id') in env.get('ptrs', {}):
+                return env['ptrs'][e['referencedDecl']['id']]
             p = self.path_of(e, env)
             if p is not None and p[0] == 'cstr':
                 return ('data', p[1], 'char')        # the characters of the string itself
@@ -2341,8 +2389,8 @@ class SigBuilder:
                 items += self.expr(lhs, env)
             elif not self.is_stream(lhs, env):
                 raise Undecided('stream operator applied to something that is not the stream parameter')
-            callee = tu.callee_fn(n)
-            if callee is None or tu.body(callee) is None:
+            callee = self.resolve(n)
+            if callee is None or (tu.body(callee) is None and callee.get('foreign') is None):
                 raise Undecided('no body for the selected operator `%s`' % tu.sd(n).get('fty'))
             d2, sub = self.sig(callee)
             if d2 != env['dir']:
@@ -2402,6 +2450,18 @@ class SigBuilder:
                     if w is None:
                         raise Undecided('`%s`: object image with a non-constant length' % tu.show(n))
                     tname = bare_type(ptr[2])
+                    if ptr[1][0] == 'local':
+                        # the image of an integer local / by-value parameter: a length field, as with `buf << n` / `buf >> n`
+                        did = ptr[1][1]
+                        if tname not in BUILTIN_SIZE or BUILTIN_SIZE[tname] != w:
+                            raise Undecided('`%s`: image of the local `%s` of type %s with length %d' % (tu.show(n), ptr[1][2], tname, w))
+                        if env['dir'] == 'w':
+                            v = env['vars'].get(did)
+                            if not isinstance(v, Poly):
+                                raise Undecided('local `%s` is written before it has a value' % ptr[1][2])
+                            return [('FIELD', w, v, None, ptr[1][2], tu.loc(n))]
+                        env['vars'][did] = Poly.atom(('rvar', did, ptr[1][2]))
+                        return [('FIELD', w, None, ('rvar', did, ptr[1][2]), ptr[1][2], tu.loc(n))]
                     return [('RAW', ptr[1], w, tname, tu.loc(n))]
                 esz = BUILTIN_SIZE.get(ptr[2]) or type_size(tu, ptr[2])
                 if esz is None:
@@ -2851,13 +2911,17 @@ def all_raw(items, out):
             all_raw(it[3], out)
 
 
-def check_signatures(ctx, tu):
+def check_signatures(ctx, tu, lib_tu=None):
     R2 = 'R-C15-2'
     ctx.describe(R2, 'writer and reader of the same type have equal wire signatures (field widths, object image sizes, data '
                  'block lengths, repeat counts, destination sized before it is filled); raw object images only of '
                  'trivially copyable types; the array wrapper types are written as length + elements whatever their '
                  'static type')
     sb = SigBuilder(tu)
+    if lib_tu is not None:
+        sb.other = SigBuilder(lib_tu)
+        sb.other.raw_types = sb.raw_types              # one table of raw object images
+        sb.other.stream_queries = sb.stream_queries
     writers, readers, calcs = {}, {}, {}
     unshaped = set()      # operand types whose operator exists but could not be abstracted (reported as undecided)
     nprobe = 0
@@ -2869,7 +2933,7 @@ def check_signatures(ctx, tu):
             ctx.broken('%s: probe %s must contain exactly one stream operation' % (R2, f['q']))
             continue
         op = ops[0]
-        callee = tu.callee_fn(op)
+        callee = sb.resolve(op)
         opnd = tu.strip(tu.kids(op)[2], casts=True)
         ty = bare_type(tu.sd(tu.strip(tu.kids(op)[2])).get('ct', ''))
         if opnd is not None and opnd.get('kind') == 'StringLiteral':
@@ -3803,7 +3867,7 @@ def run(ctx):
     parsed = ctx.front.parse_many([dict(unit=u, config='TBB') for u in units])
     tus = dict(zip(units, parsed))
     check_buffers(ctx, tus)
-    check_signatures(ctx, tus['drivers/c15_streams.cpp'])
+    check_signatures(ctx, tus['drivers/c15_streams.cpp'], tus['rkcommon/networking/DataStreaming.cpp'])
     check_buffer_moves(ctx, tus['drivers/c15_streams.cpp'])
     check_buffer_sync(ctx, tus['drivers/c15_streams.cpp'])
     check_view_lifetime(ctx, tus['rkcommon/networking/DataStreaming.cpp'])
@@ -3811,7 +3875,7 @@ def run(ctx):
         more = ctx.front.parse_many([dict(unit=u, config='DEBUG', std='gnu++17') for u in units])
         tus2 = dict(zip(units, more))
         check_buffers(ctx, tus2)
-        check_signatures(ctx, tus2['drivers/c15_streams.cpp'])
+        check_signatures(ctx, tus2['drivers/c15_streams.cpp'], tus2['rkcommon/networking/DataStreaming.cpp'])
         check_buffer_moves(ctx, tus2['drivers/c15_streams.cpp'])
         check_buffer_sync(ctx, tus2['drivers/c15_streams.cpp'])
         check_view_lifetime(ctx, tus2['rkcommon/networking/DataStreaming.cpp'])
